@@ -342,6 +342,32 @@ func rpcCases(wh pb.WebhooksAPIServer) []rpcCase {
 			simrt.SleepFor(300 * time.Millisecond)
 			return nil, nil
 		}},
+		{"peer.DiscoverReply", func(w *World, n *Node, s *shaper, ctx context.Context) (proto.Message, error) {
+			// the genesis node's answer to a join carries malformed connection entries
+			if len(w.Nodes) < 2 || n.Idx == 0 {
+				return nil, nil
+			}
+			w.Net.Mutate = func(from, to int, kind string, msg proto.Message) proto.Message {
+				cn, ok := msg.(*pb.ConnectedNodes)
+				if kind != "DiscoverReply" || !ok {
+					return nil
+				}
+				bad := s.connectionData()
+				if bad == nil {
+					bad = &pb.ConnectionData{}
+				}
+				cn.Connections = append([]*pb.ConnectionData{decodable(bad, &pb.ConnectionData{})}, cn.Connections...)
+				return cn
+			}
+			defer func() { w.Net.Mutate = nil }()
+			var res StepResult
+			w.spawnOp(fmt.Sprintf("n%d:join", n.Idx), n, &res, func(c context.Context) error { return n.Goss.Join(c, w.Nodes[0].URL) })
+			w.waitOps(opBudget)
+			if res.Panic != "" {
+				panic(res.Panic)
+			}
+			return nil, nil
+		}},
 		{"peer.LoadDagStream", func(w *World, n *Node, s *shaper, ctx context.Context) (proto.Message, error) {
 			// a joining node receives a malformed vertex in the sync stream
 			bad := s.vertex()
